@@ -545,7 +545,7 @@ func (w *dworld) refreshFamily() {
 	}
 	answers := httpAnswers(len(newBody), r.Thorough() || w.rc != nil)
 	r.Bound("refresh_http_answers", len(answers))
-	for _, situation := range []string{"holds-older-copy", "never-saw-the-list"} {
+	for _, situation := range []string{"holds-older-copy", "never-saw-the-list", "saw-the-revocation"} {
 		for _, a := range answers {
 			for _, faults := range []int{1, 2} {
 				if faults == 2 && strings.Contains(a.Name, "@") && !r.Thorough() {
@@ -558,7 +558,7 @@ func (w *dworld) refreshFamily() {
 				// --- bring the verifying node into the situation
 				forget()
 				delete(sw.http.answer, u)
-				if situation == "holds-older-copy" {
+				if situation != "never-saw-the-list" {
 					sw.http.override[u] = oldBody
 					if err := sw.ver.Verify(cred, true, true, nil); err != nil {
 						t.Fatalf("harness: verification against the older list fails: %v", err)
@@ -566,6 +566,13 @@ func (w *dworld) refreshFamily() {
 					age()
 				}
 				delete(sw.http.override, u)
+				if situation == "saw-the-revocation" {
+					// the node fetched the list with the bit set (and reported the credential revoked) before the endpoint fails
+					if err := sw.ver.Verify(cred, true, true, nil); !errors.Is(err, types.ErrRevoked) {
+						t.Fatalf("harness: verification against the issuer's current list: %v", err)
+					}
+					age()
+				}
 				// --- the fetch(es) that meet the answer
 				sw.http.answer[u], sw.http.left[u] = a, faults
 				var during []string
@@ -580,6 +587,10 @@ func (w *dworld) refreshFamily() {
 						// verifier.Verify documents this: "soft fail, only return an error when revocation is confirmed" - not judged
 						r.Observation("soft-fail-without-status-list|"+answerClass(a.Name), "the status list was never obtained and the credential verifies (documented soft fail)")
 					}
+					if err == nil && situation == "saw-the-revocation" {
+						r.Violation("C01|refresh|revoked-then-valid-again|"+answerClass(a.Name),
+							fmt.Sprintf("the verifying node had fetched the status list with the credential's bit set and reported the credential revoked; when the refresh interval passed and the endpoint answered %s, it reports the credential as valid again (the copy it falls back on is not the last one it obtained)", a.Name), c)
+					}
 					if err == nil && situation == "holds-older-copy" {
 						r.Observation("soft-fail-on-refresh|"+answerClass(a.Name), "the older copy of the list is used while the endpoint fails (documented)")
 					}
@@ -587,7 +598,7 @@ func (w *dworld) refreshFamily() {
 				}
 				// --- the answer is gone (quiescence): the next verification refreshes
 				delete(sw.http.answer, u)
-				if situation == "holds-older-copy" {
+				if situation != "never-saw-the-list" {
 					age()
 				}
 				err := sw.ver.Verify(cred, true, true, nil)
